@@ -167,7 +167,7 @@ def classify(warm_rec, cold):
         return ("harness", cold["__harness__"])
     crec = cold["record"]
     if cold["cone_bad"]:
-        return ("inconclusive", "cone step failed in the cold run")
+        return ("inconclusive", "cone step failed or ran out of fuel in the cold run")
     ws, cs = warm_rec["status"], crec["status"]
     if ws == "fuel" or cs == "fuel":
         return ("inconclusive", "fuel")
@@ -189,21 +189,103 @@ def classify(warm_rec, cold):
     return ("text", {"warm": wo, "cold": co})
 
 
-def evaluate_program(steps, envs, *, fuel=DEFAULT_FUEL, shims=False, faults=True, only=None,
-                     cold_cache=None, skip_trivial=False):
-    """Warm run + one cold run per completed producing step (or only ``only``).
+def plan_chains(by_id, probe_ids):
+    """Group cold probes into chains of nested cones so that one fresh fork can serve several probes.
 
-    Returns dict(warm=…, probes=[{id, verdict, …}], divergences=[…], harness=[…]).
+    A chain is a list of segments [(steps to execute, probe id observed after them)] such that when a
+    probe is observed, the set of steps executed so far in that fork is EXACTLY the probe's cone
+    (order inside a cone may differ from program order; C10 says order must not matter, and any
+    history consisting of the cone alone is a legitimate "fresh interpreter" reference).
+    Returns [{"segments": [([step ids], probe id), …]}].
+    """
+    cones = {sid: sx.cone_of(by_id, sid) for sid in probe_ids}
+    chains = []  # {"covered": frozenset, "segments": [...]}
+    pure_parse_done = set()
+    singles = []
+    for sid in probe_ids:
+        cone = cones[sid]
+        cset = set(cone)
+        if len(cone) == 1:
+            singles.append(sid)
+            continue
+        best = None
+        for ch in chains:
+            if ch["covered"] < cset and (best is None or len(ch["covered"]) > len(best["covered"])):
+                best = ch
+        if best is not None:
+            rest = [k for k in cone if k not in best["covered"]]
+            best["segments"].append((rest, sid))
+            best["covered"] = frozenset(cset)
+            continue
+        # new chain: start with a cone-free step of this cone that is itself a probe and has not been
+        # observed in a pristine state yet, so that its own cold fork is saved
+        first = next((k for k in cone if k in cones and len(cones[k]) == 1 and k not in pure_parse_done), None)
+        segments = []
+        covered = set()
+        if first is not None:
+            segments.append(([first], first))
+            pure_parse_done.add(first)
+            covered.add(first)
+        segments.append(([k for k in cone if k not in covered], sid))
+        chains.append({"covered": frozenset(cset), "segments": segments})
+    for sid in singles:
+        if sid not in pure_parse_done:
+            chains.append({"covered": frozenset([sid]), "segments": [([sid], sid)]})
+    return [{"segments": ch["segments"]} for ch in chains]
+
+
+def cold_chain_run(by_id, chain, envs, *, fuel):
+    """One fresh fork serving every probe of a chain. Returns {probe id: {"record", "cone_bad", "clock"}}."""
+    order = []
+    observe = set()
+    for seg, probe in chain["segments"]:
+        order.extend(seg)
+        observe.add(probe)
+    prog = [{kk: vv for kk, vv in by_id[k].items() if kk not in ("fault", "ast", "c")} for k in order]
+
+    def child():
+        recs = sx.run_steps(prog, envs, faults=False, fuel=fuel, observe_ids=observe, clock_marks=True)
+        return {"records": recs}
+
+    res = fork_call(child)
+    if "__harness__" in res:
+        return {probe: res for _, probe in chain["segments"]}, 0
+    recs = {r["id"]: r for r in res["records"]}
+    out = {}
+    bad = []
+    done = []
+    for seg, probe in chain["segments"]:
+        for k in seg:
+            done.append(k)
+            if recs[k]["status"] != "ok":
+                bad.append(k)  # including earlier probes of this chain: their dependents get skipped
+        cone = set(sx.cone_of(by_id, probe))
+        out[probe] = {"record": recs[probe], "cone_bad": [k for k in bad if k in cone and k != probe],
+                      "clock": recs[probe]["clock"]}
+    return out, max((r["clock"] for r in res["records"]), default=0)
+
+
+def evaluate_program(steps, envs, *, fuel=DEFAULT_FUEL, shims=False, faults=True, only=None,
+                     cold_cache=None, skip_trivial=False, chains=None):
+    """Warm run, then every completed producing step (or only ``only``) is compared with its cold run.
+
+    ``chains``: None = one fresh fork per probe (cone in program order) when ``only`` is given, chained
+    forks otherwise; True/False forces. Returns dict(warm, probes=[{id, verdict, …}], divergences, harness, steps).
     """
     warm = warm_run(steps, envs, fuel=fuel, shims=shims, faults=faults)
     if "__harness__" in warm:
-        return {"warm": warm, "probes": [], "divergences": [], "harness": [("warm", warm["__harness__"], warm.get("trace"))]}
+        return {"warm": warm, "probes": [], "divergences": [], "harness": [("warm", warm["__harness__"], warm.get("trace"))],
+                "steps": steps}
     steps = sx.concretise(steps, warm["records"])
     by_id = {s["id"]: s for s in steps}
+    if chains is None:
+        chains = only is None
     probes = []
     divergences = []
     harness = []
     cold_cache = cold_cache if cold_cache is not None else {}
+    # ---- phase 1: which steps are probed -----------------------------------------------------
+    todo = []  # (warm record)
     disturbed = False  # an abort, failure or fuel exhaustion happened so far: warm prefix != fault-free prefix
     prefix = set()
     for rec in warm["records"]:
@@ -228,16 +310,53 @@ def evaluate_program(steps, envs, *, fuel=DEFAULT_FUEL, shims=False, faults=True
         if rec["status"] == "fuel":
             probes.append({"id": sid, "verdict": "inconclusive", "why": "fuel"})
             continue
-        cprog = sx.cold_program(by_id, sid)
-        key = canon_cone(cprog)
-        cold = cold_cache.get(key)
-        cached = cold is not None
-        if cold is None:
-            cold = cold_run(cprog, envs, fuel=fuel)
+        todo.append(rec)
+    # ---- phase 2: cold results ------------------------------------------------------------------
+    cold_of = {}
+    cached_ids = set()
+    keys = {}
+    need = []
+    for rec in todo:
+        sid = rec["id"]
+        keys[sid] = canon_cone(sx.cold_program(by_id, sid))
+        if keys[sid] in cold_cache:
+            cold_of[sid] = cold_cache[keys[sid]]
+            cached_ids.add(sid)
+        elif any(keys[o] == keys[sid] for o in need):
+            pass  # same cone text as an earlier probe of this run: filled in below
+        else:
+            need.append(sid)
+    forks = 0
+    cold_clock = 0
+    if chains:
+        for chain in plan_chains(by_id, need):
+            forks += 1
+            colds, clk = cold_chain_run(by_id, chain, envs, fuel=fuel)
+            cold_clock += clk
+            for probe, cold in colds.items():
+                cold_of[probe] = cold
+                if "__harness__" not in cold:
+                    cold_cache[keys[probe]] = cold
+    else:
+        for sid in need:
+            forks += 1
+            cold = cold_run(sx.cold_program(by_id, sid), envs, fuel=fuel)
+            cold_of[sid] = cold
+            cold_clock += cold.get("clock", 0)
             if "__harness__" not in cold:
-                cold_cache[key] = cold
+                cold_cache[keys[sid]] = cold
+    # ---- phase 3: verdicts ----------------------------------------------------------------------
+    for rec in todo:
+        sid = rec["id"]
+        cold = cold_of.get(sid)
+        cached = sid in cached_ids
+        if cold is None:
+            cold = cold_cache.get(keys[sid])
+            cached = True
+        if cold is None:
+            cold = {"__harness__": "crash", "trace": "no cold result"}
         verdict = classify(rec, cold)
-        p = {"id": sid, "cone": len(cprog), "cached": cached}
+        p = {"id": sid, "cone": keys[sid].count("[") - 1, "cached": cached}
         if verdict is None:
             p["verdict"] = "agree"
         elif verdict[0] == "inconclusive":
@@ -254,7 +373,9 @@ def evaluate_program(steps, envs, *, fuel=DEFAULT_FUEL, shims=False, faults=True
             p["cold_digest"] = sx.obs_digest(cold["record"].get("obs", {"exc": cold["record"].get("exc", cold["record"]["status"])}))
             p["cold_clock"] = cold["clock"]
         probes.append(p)
-    return {"warm": warm, "probes": probes, "divergences": divergences, "harness": harness, "steps": steps}
+    probes.sort(key=lambda p: p["id"])
+    return {"warm": warm, "probes": probes, "divergences": divergences, "harness": harness, "steps": steps,
+            "cold_forks": forks, "cold_clock": cold_clock}
 
 
 def event_log_digest(steps, result):
